@@ -15,7 +15,7 @@ func VGQueue() (*Queue[int], []int) {
 
 func VHQueueStep() {
 	q, pre := VGQueue()
-	containers.VLinStep(containers.VLin{C: q, Push: q.Enqueue, Pop: q.Dequeue, Peek: q.Peek,
+	containers.VLinStep(containers.VLin{Name: "ArrayQueue", C: q, Push: q.Enqueue, Pop: q.Dequeue, Peek: q.Peek,
 		Inv: func() { v.Assert(q.list != nil, "inv-list") }}, pre)
 }
 
